@@ -1,7 +1,7 @@
 LIBS = ["libavoid"]
 HARNESS = "harness/c04.cpp"
 DRIVER_MODE = "c04"
-LEAN_MODULES = ["AdaptaVerif.Props.C04"]
+LEAN_MODULES = ["AdaptaVerif.Props.C04", "AdaptaVerif.Props.C04Own"]
 LEVEL = "translation_validation"
 LEVEL_TEXT = ("Per connector the optimum over the spec visibility graph (all shape corners + endpoints, edge iff the proven "
               "segHitsInterior checker finds no interior hit, weights = certified sqrt enclosures) is enclosed in a certified "
